@@ -234,6 +234,13 @@ def nontrivial(case: dict) -> bool:
 
 
 def shard(ctx: core.Ctx) -> None:
+	try:
+		parser()
+	except Exception as e:  # the engine cannot even rebuild its own built-in rules
+		ctx.fail(f'engine:cannot-load-own-rules:{type(e).__name__}', f'{type(e).__name__}: {str(e)[:300]}', {'kind': 'fixed-point', 'file': 'gram.lark'})
+		ctx.case('load', True)
+		ctx.case('load2', True)
+		return
 	if ctx.shard == 0:
 		for sig, detail, case in fixed_points():
 			ctx.fail(sig, detail, case)
@@ -248,6 +255,10 @@ def shard(ctx: core.Ctx) -> None:
 
 
 def replay(case: dict) -> list[tuple[str, str]]:
+	try:
+		parser()
+	except Exception as e:
+		return [(f'engine:cannot-load-own-rules:{type(e).__name__}', str(e)[:300])]
 	if case['kind'] == 'fixed-point':
 		return [(s, d) for s, d, c in fixed_points() if c['file'] == case['file']]
 	return judge(case)
